@@ -173,7 +173,8 @@ def run_case(case, prefix=None):
     res = Result()
     lite = case.get("drv", "full") == "lite"
     sim = Sim()
-    chip = Chip(sim, Medium(sim), "D", plus=bool(case.get("plus", True)))
+    # the lite driver is documented as not compatible with the non-plus variant
+    chip = Chip(sim, Medium(sim), "D", plus=bool(case.get("plus", True)) or lite)
     r = mk_radio(case.get("drv", "full"), chip)
     snap = chip.regfile()
     if not lite:
@@ -355,7 +356,7 @@ def strategy(drv="full"):
                      st.lists(st.booleans(), max_size=7).map(lambda v: {"t": "tuple", "v": v}),
                      st.sampled_from([{"t": "none"}, {"t": "str", "v": "1"}]))
     addr = st.one_of(st.binary(min_size=1, max_size=5), st.binary(min_size=1, max_size=5), st.binary(min_size=5, max_size=5),
-                     st.binary(min_size=0, max_size=6)).map(lambda b: {"t": "bytes", "v": b.hex()})
+                     st.binary(min_size=0, max_size=5 if lite else 6)).map(lambda b: {"t": "bytes", "v": b.hex()})
     pa = st.one_of(st.sampled_from([-18, -12, -6, 0]), st.sampled_from([-18, -12, -6, 0, 6, -1, -24]),
                    st.tuples(st.sampled_from([-18, -12, -6, 0, 3]), st.booleans()).map(lambda t: {"t": "list", "v": list(t)}),
                    st.tuples(st.sampled_from([-18, -12, -6, 0]), st.booleans(), st.integers(0, 9)).map(
@@ -391,10 +392,11 @@ def strategy(drv="full"):
             st.tuples(st.just("interrupt_config"), st.booleans(), st.booleans(), st.booleans()),
             st.tuples(st.just("power"), st.booleans()), st.tuples(st.just("open_rx_pipe"), pipe, addr),
             st.tuples(st.just("close_rx_pipe"), pipe), st.tuples(st.just("open_tx_pipe"), addr),
-            st.tuples(st.just("listen"), st.booleans()), st.just(("getters",))]]
+            st.tuples(st.just("listen"), st.booleans()), st.just(("getters",)),
+            st.tuples(st.just("load_ack"), st.binary(max_size=34).map(lambda b: {"t": "bytes", "v": b.hex()}), pipe)]]
     return st.fixed_dictionaries({
         "drv": st.just(drv), "plus": st.sampled_from([True, True, True, False]),
-        "ops": st.lists(st.one_of(*ops).map(list), min_size=1, max_size=40).map(lambda o: o + TAIL),
+        "ops": st.lists(st.one_of(*ops).map(list), min_size=1, max_size=40).map(lambda o: o + (TAIL[1:2] if lite else TAIL)),
     })
 
 
